@@ -15,6 +15,7 @@ import (
 	"os"
 	"runtime/pprof"
 	"sort"
+	"sync"
 	"time"
 
 	"github.com/golang/protobuf/proto"
@@ -33,12 +34,27 @@ var ctx = context.Background()
 
 var gzMagic = []byte{0x1f, 0x8b}
 
-func realGzip(b []byte) []byte {
-	var buf bytes.Buffer
-	w := gzip.NewWriter(&buf)
-	_, _ = w.Write(b)
-	_ = w.Close()
-	return buf.Bytes()
+// gzipPool: a few real gzip streams made once (creating a gzip writer is by far the most
+// expensive step under the race detector here, so the generator does not make one per entry).
+var gzipPool [][]byte
+
+func initGzipPool(rng *rand.Rand) {
+	for i := 0; i < 6; i++ {
+		b := make([]byte, []int{0, 1, 20, 300, 2000, 4000}[i])
+		rng.Read(b)
+		if i%2 == 1 {
+			b = bytes.Repeat([]byte("ab"), len(b)/2+1)
+		}
+		var buf bytes.Buffer
+		w := gzip.NewWriter(&buf)
+		_, _ = w.Write(b)
+		_ = w.Close()
+		gzipPool = append(gzipPool, buf.Bytes())
+	}
+}
+
+func realGzip(rng *rand.Rand) []byte {
+	return append([]byte{}, gzipPool[rng.Intn(len(gzipPool))]...)
 }
 
 // blob returns a byte string of one of the hostile classes.
@@ -52,7 +68,7 @@ func blob(rng *rand.Rand, max int) []byte {
 	case 1: // looks like gzip, is not
 		return append(append([]byte{}, gzMagic...), b...)
 	case 2: // is gzip
-		return realGzip(b)
+		return realGzip(rng)
 	case 3: // compressible text
 		return bytes.Repeat([]byte("seaweed "), n/8+1)
 	}
@@ -91,7 +107,19 @@ var secs = []int64{0, 1, 1500000000, 1632268800, 1<<31 + 5, 253402300799, -1}
 
 type chunkClass struct{ lo, hi int }
 
-var chunkCounts = []chunkClass{{0, 0}, {1, 1}, {2, 5}, {49, 49}, {50, 50}, {51, 51}, {52, 80}, {100, 120}, {200, 200}}
+// Entries with > 50 chunks make the store gzip the value; one in eight entries is of that
+// kind (each costs a gzip writer inside the code under test, ~0.1-0.3 s under -race here).
+var smallCounts = []chunkClass{{0, 0}, {1, 1}, {2, 5}, {6, 30}, {49, 49}, {50, 50}}
+var bigCounts = []chunkClass{{51, 51}, {52, 80}, {100, 120}, {200, 200}}
+
+func pickChunkCount(rng *rand.Rand) int {
+	cs := smallCounts
+	if rng.Intn(8) == 0 {
+		cs = bigCounts
+	}
+	cc := cs[rng.Intn(len(cs))]
+	return cc.lo + rng.Intn(cc.hi-cc.lo+1)
+}
 
 func genChunks(rng *rand.Rand, n int) []*filer_pb.FileChunk {
 	var chunks []*filer_pb.FileChunk
@@ -414,7 +442,7 @@ func (w *world) checkList(dir util.FullPath, mode string) {
 	}
 }
 
-func (w *world) checkCodec(e *filer.Entry, nchunks int) {
+func (w *world) checkCodec(e *filer.Entry, nchunks int, withGzip bool) {
 	// raw codec round trip (no wrapper: chunk ids stay as given)
 	want := proto.Clone(e.ToProtoEntry()).(*filer_pb.Entry)
 	b, err := e.EncodeAttributesAndChunks()
@@ -431,11 +459,14 @@ func (w *world) checkCodec(e *filer.Entry, nchunks int) {
 	if !proto.Equal(d.ToProtoEntry(), want) {
 		w.r.Violation(lib.Sig{"op": "codec", "class": "differs", "chunks": chunkClassOf(nchunks)}, map[string]interface{}{"op_index": w.ops, "store": w.kind, "seed": w.r.Seed, "tier": w.r.Tier, "msg": "Decode(Encode(entry)) differs"})
 	}
-	// compression helpers on what the stores feed them: an encoded entry
+	// compression helpers on what the stores feed them: an encoded entry with > 50 chunks
+	if nchunks <= 50 || !withGzip {
+		return
+	}
 	z := util.MaybeGzipData(b)
 	if util.IsGzippedContent(z) && !bytes.Equal(z, b) {
 		w.r.Count("encodings_actually_gzipped", 1)
-	} else if nchunks > 50 {
+	} else {
 		w.r.Count("encodings_over_50_chunks_left_uncompressed", 1)
 	}
 	back := util.MaybeDecompressData(z)
@@ -444,6 +475,8 @@ func (w *world) checkCodec(e *filer.Entry, nchunks int) {
 		w.r.Violation(lib.Sig{"op": "gzip", "class": "differs", "chunks": chunkClassOf(nchunks)}, map[string]interface{}{"op_index": w.ops, "store": w.kind, "seed": w.r.Seed, "tier": w.r.Tier, "msg": "MaybeDecompressData(MaybeGzipData(encoded entry)) differs"})
 	}
 }
+
+var t0 = time.Now() // progress printing only (VERIF_TIMING), never read by an oracle
 
 func (w *world) runStore(nops int, stopAt int) {
 	r := w.r
@@ -472,11 +505,10 @@ func (w *world) runStore(nops int, stopAt int) {
 			}
 			path = dirs[rng.Intn(len(dirs))].Child(name)
 		}
-		cc := chunkCounts[rng.Intn(len(chunkCounts))]
-		n := cc.lo + rng.Intn(cc.hi-cc.lo+1)
+		n := pickChunkCount(rng)
 		e := genEntry(rng, path, n)
 		r.Case(map[string]interface{}{"store": w.kind, "op_index": w.ops, "update": update, "path": string(path), "chunks": n})
-		w.checkCodec(cloneEntry(e), n)
+		w.checkCodec(cloneEntry(e), n, rng.Intn(3) == 0)
 		want := expectedPb(e)
 		toStore := cloneEntry(e) // the wrapper rewrites chunk ids in place
 		var err error
@@ -517,6 +549,9 @@ func (w *world) runStore(nops int, stopAt int) {
 			p := paths[rng.Intn(len(paths))]
 			w.checkFind("find-older", p, w.model[p])
 		}
+		if os.Getenv("VERIF_TIMING") != "" && w.ops%100 == 0 {
+			fmt.Fprintf(os.Stderr, "TIMING %s op %d t=%.1fs\n", w.kind, w.ops, time.Since(t0).Seconds())
+		}
 		if w.ops%97 == 96 {
 			d := dirs[rng.Intn(len(dirs))]
 			w.checkList(d, "list")
@@ -555,7 +590,7 @@ func main() {
 		defer pprof.StopCPUProfile()
 	}
 	r := lib.Start("C24", "exploration")
-	r.SetRule("per store (leveldb, leveldb2, leveldb3, each through the real FilerStoreWrapper): a seeded sequence of InsertEntry (4/5) / UpdateEntry of an existing path (1/5) with random entries: every attribute field (times at second granularity incl. 0, -1, >2^31; arbitrary mode bits; octet-stream mime), chunk counts from {0,1,2-5,49,50,51,52-80,100-120,200} with canonical file ids (1/5/8-byte keys, zero-leading cookies, ids given in object form), source ids, cipher keys, etags, flags; extended values / content / md5 / hard-link ids that are empty, random, gzip-looking or real gzip; hard-link fields (unique id each); remote info; 5 directories (two under /buckets/, one with space and non-ASCII). After every write: FindEntry of it and of a random older entry; every 97 ops and at the end: full, prefixed and 7-per-page listings compared entry by entry; then the store is reopened and everything is looked up and listed again. distinct = (store, op index, chunk count, hard link, update, #extended, content length); non-trivial = every successful insert/update")
+	r.SetRule("per store (leveldb, leveldb2, leveldb3, each through the real FilerStoreWrapper): a seeded sequence of InsertEntry (4/5) / UpdateEntry of an existing path (1/5) with random entries: every attribute field (times at second granularity incl. 0, -1, >2^31; arbitrary mode bits; octet-stream mime), chunk counts from {0,1,2-5,6-30,49,50} (7/8) or {51,52-80,100-120,200} (1/8: the store gzips these) with canonical file ids (1/5/8-byte keys, zero-leading cookies, ids given in object form), source ids, cipher keys, etags, flags; extended values / content / md5 / hard-link ids that are empty, random, gzip-looking or real gzip; hard-link fields (unique id each); remote info; 5 directories (two under /buckets/, one with space and non-ASCII). After every write: FindEntry of it and of a random older entry; every 97 ops and at the end: full, prefixed and 7-per-page listings compared entry by entry; then the store is reopened and everything is looked up and listed again. distinct = (store, op index, chunk count, hard link, update, #extended, content length); non-trivial = every successful insert/update")
 	r.Assume("times are generated at second granularity (the stored type is seconds); Mime application/octet-stream is modelled as the empty mime the store wrapper turns it into")
 	r.Assume("chunk file ids are generated in canonical form (needle.FileId.String()); a chunk's id as read back is what FileChunk.GetFileIdString() yields (string form, or the Fid object form rendered canonically); when both forms are present they must agree")
 	r.Assume("an insert the store refuses with an error is not a stored entry (counted, not judged)")
@@ -573,24 +608,48 @@ func main() {
 		r.Seed, r.Tier = d.Seed, d.Tier
 		stopAt, only = d.OpIndex, d.Store
 	}
-	nops := r.Pick(1000, 17000) // per store: 3 000 / 51 000 entries written in total
-	for _, kind := range lib.EmbeddedFilerStoreKinds {
-		if only != "" && kind != only {
-			continue
-		}
-		w := &world{r: r, kind: kind}
-		w.runStore(nops, stopAt)
-		r.Note("ops_"+kind, w.ops)
+	initGzipPool(r.SubRng("c24-gzip-pool"))
+	nops := r.Pick(600, 6000) // per store: 1 800 / 18 000 entries written in total
+	if len(r.Args) == 2 && r.Args[0] == "store" {
+		only = r.Args[1] // child mode: one store per process, the three run in parallel
 	}
-	r.Count("chunks_returned_in_object_form_only", objectFormOnly)
-	if r.Replay != "" {
+	if only != "" {
+		w := &world{r: r, kind: only}
+		w.runStore(nops, stopAt)
+		r.Note("ops", w.ops)
+		r.Count("chunks_returned_in_object_form_only", objectFormOnly)
 		pprof.StopCPUProfile()
 		r.Finish(0)
 	}
-	if r.Counter("inserts") == 0 || r.Counter("updates") == 0 || r.Counter("entries_chunks_51+") == 0 ||
-		r.Counter("encodings_actually_gzipped") == 0 || r.Counter("entries_with_hardlink") == 0 || r.Counter("entries_compared_in_listings") == 0 {
-		r.Inconclusive("a class of cases was never exercised (inserts/updates/>50 chunks/gzip/hard link/listing)")
+	self := os.Getenv("VERIF_SELF")
+	if self == "" {
+		self = os.Args[0]
 	}
+	var wg sync.WaitGroup
+	for _, kind := range lib.EmbeddedFilerStoreKinds {
+		wg.Add(1)
+		go func(kind string) {
+			defer wg.Done()
+			r.RunChild(kind, self, nil, "store", kind)
+		}(kind)
+	}
+	wg.Wait()
+	sum := func(name string) (n int64) {
+		for _, kind := range lib.EmbeddedFilerStoreKinds {
+			n += r.Counter(kind + "." + name)
+		}
+		return
+	}
+	for _, kind := range lib.EmbeddedFilerStoreKinds {
+		if r.Counter(kind+".inserts") == 0 || r.Counter(kind+".updates") == 0 || r.Counter(kind+".entries_chunks_51+") == 0 ||
+			r.Counter(kind+".entries_with_hardlink") == 0 || r.Counter(kind+".entries_compared_in_listings") == 0 || r.Counter(kind+".reopens") == 0 {
+			r.Inconclusive("store " + kind + ": a class of cases was never exercised (inserts/updates/>50 chunks/hard link/listing/reopen)")
+		}
+	}
+	if sum("encodings_actually_gzipped") == 0 {
+		r.Inconclusive("no encoded entry was actually gzip-compressed")
+	}
+	r.Note("entries_written_total", sum("inserts")+sum("updates"))
 	pprof.StopCPUProfile()
-	r.Finish(r.Pick(1500, 25000))
+	r.Finish(r.Pick(1200, 9000))
 }
